@@ -1456,14 +1456,6 @@ fn inv_swap_2x3() {
     inv_swap::<2, 3, 6>(false)
 }
 
-// @harness props=C14 tier=thorough group=f64 bounds=3x4<->4x3,cells=0..3,pi_xy+f2+fst,tolerance=1e-9 timeout=3000
-#[kani::proof]
-#[kani::unwind(16)]
-#[kani::stub(f64::powi, powi_model)]
-fn inv_swap_3x4() {
-    inv_swap::<3, 4, 12>(true)
-}
-
 /// multiplying by c in {2, 4, 1/2} (exact in f64): ratio statistics unchanged, linear ones scale
 // @harness props=C14 tier=quick group=f64 bounds=1-D,5-cells,cells=0..3(even),c=2|4|0.5 timeout=1800
 #[kani::proof]
@@ -1722,14 +1714,6 @@ fn stat_def_fst_3x4() {
 #[kani::stub(f64::powi, powi_model)]
 fn stat_def_fst_4x3_swapped() {
     fst_unequal(2, true)
-}
-
-// @harness props=C06,C14 tier=thorough group=f64 bounds=3x4,cells=0..3,tolerance=1e-9 timeout=3600
-#[kani::proof]
-#[kani::unwind(16)]
-#[kani::stub(f64::powi, powi_model)]
-fn stat_def_fst_3x4_wide() {
-    fst_unequal(4, false)
 }
 
 /// spectra whose total is below one (frequencies, masked spectra): cells k/8
